@@ -126,6 +126,12 @@ OPERAND_SLOTS = ["arith_left", "arith_right", "cmp_left", "cmp_right", "bool_rig
                  "fn_arg", "case_when", "case_then", "case_else", "tuple_elem", "array_elem", "isnull", "where_root", "having_root", "on_root",
                  "win_partition", "win_order", "select_arith", "select_fn_arg"]
 DEFINING = ["select", "select_last", "returning", "distinct_on"]
+# the same operand slots with the enclosing expression as a select-list item (the one clause rendered with with_alias=True), and with it as
+# an aliased select-list item: the operand's alias must not appear, the item's own alias exactly once
+WHERE_WRAPPED = ["arith_left", "arith_right", "cmp_left", "cmp_right", "bool_right", "not", "neg", "in_term", "in_elem", "between_term", "between_lo",
+                 "fn_arg", "tuple_elem", "isnull", "in_container"]
+SEL_SLOTS = ["sel:" + x for x in WHERE_WRAPPED]
+MODES = ["ctx", "par", "str"]
 
 
 def statement(cls_name, pos, X, as_selectable=False):
@@ -152,8 +158,13 @@ def statement(cls_name, pos, X, as_selectable=False):
         return Q.from_(X).select("*")
     if pos == "join":
         return base.join(X).on(c == 1).select(d)
+    in_select = pos.startswith("sel:")
+    if in_select:
+        pos = pos[4:]
     w = None
-    if pos == "arith_left":
+    if pos == "in_container":
+        w = d.isin(X)
+    elif pos == "arith_left":
         w = X + d
     elif pos == "arith_right":
         w = d + X
@@ -205,10 +216,18 @@ def statement(cls_name, pos, X, as_selectable=False):
         return base.select(fn.Coalesce(X, 0))
     else:
         raise HarnessError(pos)
+    if in_select:
+        return base.select(d, w)
     return base.select(d).where(w)
 
 
-def render(q, cls_name):
+def render(q, cls_name, mode="ctx"):
+    if mode == "par":
+        from pypika_tortoise import Parameterizer
+
+        return q.get_sql(prog.sql_context(cls_name).copy(parameterizer=Parameterizer()))
+    if mode == "str":
+        return str(q)
     return q.get_sql(prog.sql_context(cls_name))
 
 
@@ -229,7 +248,7 @@ def depth0_index(tokens, word, start=0):
     return len(tokens)
 
 
-def check_cell(tcls, cls_name, pos, via):
+def check_cell(tcls, cls_name, pos, via, mode="ctx"):
     """-> ('skip', reason) | ('ok', None) | ('viol', kind, detail)"""
     env = prog.Env(cls_name, SRC)
     try:
@@ -259,7 +278,7 @@ def check_cell(tcls, cls_name, pos, via):
     if q0 is None:
         return ("skip", "n/a")
     try:
-        s0, s1 = render(q0, cls_name), render(q1, cls_name)
+        s0, s1 = render(q0, cls_name, mode), render(q1, cls_name, mode)
     except Exception as e:
         return ("skip", "render:" + type(e).__name__)
     t0, t1 = lex.lex(s0, cls_name), lex.lex(s1, cls_name)
@@ -272,7 +291,7 @@ def check_cell(tcls, cls_name, pos, via):
         if [t.key for t in t1] != k0:
             return ("viol", "misplaced", "%r vs %r" % (s1, s0))
         return ("ok", None)
-    if pos in OPERAND_SLOTS:
+    if pos in OPERAND_SLOTS or pos in SEL_SLOTS or pos == "in_container":
         if n:
             return ("viol", "leaked", "%s as %s operand: %r" % (tcls.__name__, pos, s1))
         if [t.key for t in t0] != [t.key for t in t1]:
@@ -415,9 +434,12 @@ def all_cells():
             continue
         for cls_name in CTXS:
             sel = tcls.__name__ in SELECTABLES
-            positions = DEFINING + OPERAND_SLOTS + (["from", "join"] if sel else [])
+            positions = DEFINING + OPERAND_SLOTS + SEL_SLOTS[:-1] + (["from", "join", "in_container", "sel:in_container"] if sel else [])
             for pos in positions:
-                yield tcls, cls_name, pos
+                for mode in MODES:
+                    if mode == "str" and cls_name != "generic" and not sel:
+                        continue  # str() renders with the builder's own class context: one pass per class is the ctx pass
+                    yield tcls, cls_name, pos, mode
 
 
 def find_class(name):
@@ -433,7 +455,7 @@ def check_case(case):
         r = check_groupby(tcls, case["cls"], case["clause"], case["defined"])
         pos = case["clause"]
     else:
-        r = check_cell(tcls, case["cls"], case["pos"], "as_")
+        r = check_cell(tcls, case["cls"], case["pos"], "as_", case.get("mode", "ctx"))
         pos = case["pos"]
     if r[0] == "viol":
         return [(sig_of(tcls, pos, r[1]), r[2])]
@@ -456,18 +478,18 @@ def run_shard(shard):
     tier, cls_name = shard
     col = Collector()
     uncovered = set()
-    for tcls, cn, pos in all_cells():
+    for tcls, cn, pos, mode in all_cells():
         if cn != cls_name:
             continue
-        case = {"term": class_key(tcls), "cls": cn, "pos": pos}
-        r = check_cell(tcls, cn, pos, "as_")
+        case = {"term": class_key(tcls), "cls": cn, "pos": pos, "mode": mode}
+        r = check_cell(tcls, cn, pos, "as_", mode)
         if r[0] == "skip":
             col.count("skip:" + r[1])
             if r[1].startswith("construct") or r[1] == "no-recipe":
                 uncovered.add(class_key(tcls))
             col.evaluations += 1
             continue
-        col.case(case, True, classes=("pos:" + pos,), sample=dict(case, sql=_sample_sql(tcls, cn, pos)) if len(col.samples) < 4 else None)
+        col.case(case, True, classes=("pos:" + pos, "mode:" + mode), sample=dict(case, sql=_sample_sql(tcls, cn, pos)) if len(col.samples) < 4 else None)
         if r[0] == "viol":
             col.violation(sig_of(tcls, pos, r[1]), case, r[2])
     for tcls in term_classes():
